@@ -60,7 +60,8 @@ Print Assumptions xml_undefined_entity_not_expanded.
 
 (* 7. Since the repair of F2 a character reference beyond 2^32 no longer wraps around and "&#x;" is rejected
       (both were accepted by the code as found: "&#4294967361;" decoded to "A", "&#x;" to NUL).  Still recorded as a
-      known finding: leading white space of a text node is not reported. *)
+      known finding (C14-F1b): a text node of white space only is skipped as formatting.  The leading white space of
+      a text node that has other characters is reported since the repair of C14-F1 (example below). *)
 Theorem xml_charref_no_wrap :
   decode [38; 35; 52; 50; 57; 52; 57; 54; 55; 51; 54; 49; 59] = None /\          (* &#4294967361; *)
   decode [38; 35; 120; 59] = None /\                                              (* &#x; *)
@@ -77,4 +78,9 @@ Proof. eexists. split; vm_compute; reflexivity. Qed.
 Example rejected_instance :
   tokens default_opts [60; 97; 62; 60; 98; 62; 60; 47; 97; 62] =
   RunErr [mkTok KStart [97] [] [] 1 0 1 0; mkTok KStart [98] [] [] 2 3 4 0] 10.   (* <a><b></a> *)
+Proof. vm_compute. reflexivity. Qed.
+Example leading_whitespace_instance :
+  tokens default_opts [60; 97; 62; 32; 104; 105; 32; 60; 47; 97; 62] =
+  RunOk [mkTok KStart [97] [] [] 1 0 1 0; mkTok KText [] [32; 104; 105; 32] [] 1 3 0 3; mkTok KEnd [97] [] [] 1 7 9 0].
+  (* <a> hi </a> *)
 Proof. vm_compute. reflexivity. Qed.
